@@ -32,6 +32,18 @@ __attribute__((noinline)) unsigned long k_c04_emit(int mnemonic, Lexer *lx, std:
   return size;
 }
 
+// C10: Parser::parseDirective with the lexer cut to a token source owned by the engine.
+void k_lexer_prepare(Lexer *lx) {
+  new (&lx->identifier) std::string("id"); new (&lx->currentLine) std::string();
+  lx->currentLineNumber = 0; lx->currentCharNumber = 0;
+}
+__attribute__((noinline)) int k_parse_directive(Lexer *lx, int *out) {
+  Parser parser(*lx);
+  auto d = parser.parseDirective();
+  out[0] = static_cast<int>(d->getToken()); out[1] = static_cast<int>(d->getSize()); out[2] = d->operandIsLabel();
+  return 1;
+}
+
 // DATA word emission (C07 materialisation): one DATA directive with value d.
 __attribute__((noinline)) void k_data_emit(int d, std::ostream *os) {
   std::vector<std::unique_ptr<Directive>> program;
